@@ -177,6 +177,7 @@ impl Prop for C04 {
             hold_signer: 3,
             publisher: 0,
             restart: 0,
+            overlap: 5,
             max_advance: 2 * 86400,
             ..Weights::default()
         };
